@@ -98,7 +98,7 @@ func genListeners(r *rand.Rand, n int) uint32 {
 	return all
 }
 
-var eseqHandles = []condSet{{}, {}, {"E"}, {"R"}, {"I"}, {"E", "R"}, {"Tv"}, {"R", "I"}, {"TT"}, {"TT2", "R"}, {"EE2"}}
+var eseqHandles = []condSet{{}, {}, {"E"}, {"R"}, {"I"}, {"E", "R"}, {"Tv"}, {"R", "I"}, {"TT"}, {"TT2", "R"}, {"EE2"}, {"Es"}, {"Es", "R"}}
 
 func genPol(r *rand.Rand, kind string) polSpec {
 	p := polSpec{Kind: kind}
